@@ -470,6 +470,641 @@ Global Instance FpTwoAdicLaws : TwoAdicLaws Fp := {|
    trimmed Newton correction at the wrong offset, and div_rem trimmed rev_q before reversing it).
    Both defects were repaired by that commit; the model mirrors the repaired code. *)
 
+(* ---------------------------------------------------------------- coefficient algebra
+   [co p i] = coefficient i (0 beyond the length); [peq] = equality of all coefficients, i.e. equality
+   of polynomials whatever the number of stored leading zeros; [eqm l] = congruence modulo X^l.
+   [padd], [pscale], [pmul] (schoolbook, Base/Poly.v) form a commutative ring up to [peq]. *)
+From Coq Require Import Setoid Morphisms.
+Local Open Scope field_scope.
+Section PolyRing.
+  Context {F : Type} {FO : FieldOps F} {FL : @FieldLaws F FO}.
+  Add Field Ffr : (@F_field_theory F FO FL).
+
+  Definition co (p : list F) (i : nat) : F := nth i p 0.
+  Definition peq (p q : list F) : Prop := forall i, co p i = co q i.
+  Definition eqm (l : nat) (p q : list F) : Prop := forall i, (i < l)%nat -> co p i = co q i.
+
+  Global Instance peq_equiv : Equivalence peq.
+  Proof.
+    split.
+    - intros p i. reflexivity.
+    - intros p q H i. symmetry. apply H.
+    - intros p q r H1 H2 i. rewrite H1. apply H2.
+  Qed.
+
+  Global Instance co_proper : Proper (peq ==> eq ==> eq) co.
+  Proof. intros p q H i j <-. apply H. Qed.
+
+  Lemma co_nil i : co [] i = 0. Proof. unfold co. destruct i; reflexivity. Qed.
+  Lemma co_cons_0 x p : co (x :: p) 0 = x. Proof. reflexivity. Qed.
+  Lemma co_cons_S x p i : co (x :: p) (S i) = co p i. Proof. reflexivity. Qed.
+
+  Lemma co_padd : forall p q i, co (padd p q) i = co p i + co q i.
+  Proof.
+    induction p as [|a p IH]; intros q i.
+    - cbn [padd]. rewrite co_nil. ring.
+    - destruct q as [|b q]; cbn [padd].
+      + rewrite co_nil. ring.
+      + destruct i as [|i]; [rewrite !co_cons_0; reflexivity|]. rewrite !co_cons_S. apply IH.
+  Qed.
+
+  Lemma co_pscale c : forall p i, co (pscale c p) i = c * co p i.
+  Proof.
+    induction p as [|a p IH]; intros i.
+    - change (pscale c []) with (@nil F). rewrite co_nil. ring.
+    - change (pscale c (a :: p)) with (c * a :: pscale c p).
+      destruct i as [|i]; [rewrite !co_cons_0; reflexivity|]. rewrite !co_cons_S. apply IH.
+  Qed.
+
+  Lemma co_pmul_cons c p q i :
+    co (pmul (c :: p) q) i = c * co q i + match i with O => 0 | S i' => co (pmul p q) i' end.
+  Proof.
+    cbn [pmul]. rewrite co_padd, co_pscale. destruct i; [rewrite co_cons_0|rewrite co_cons_S]; reflexivity.
+  Qed.
+
+  Global Instance padd_proper : Proper (peq ==> peq ==> peq) padd.
+  Proof. intros p p' Hp q q' Hq i. rewrite !co_padd, Hp, Hq. reflexivity. Qed.
+  Global Instance pscale_proper c : Proper (peq ==> peq) (pscale c).
+  Proof. intros p p' Hp i. rewrite !co_pscale, Hp. reflexivity. Qed.
+  Global Instance cons_proper x : Proper (peq ==> peq) (cons x).
+  Proof. intros p p' Hp i. destruct i; [reflexivity|]. rewrite !co_cons_S. apply Hp. Qed.
+
+  Lemma pmul_nil_r : forall p, peq (pmul p []) [].
+  Proof.
+    induction p as [|c p IH]; intros i; [reflexivity|].
+    rewrite co_pmul_cons, !co_nil. destruct i; [ring|]. rewrite IH, co_nil. ring.
+  Qed.
+
+  Lemma pmul_cons_r : forall p d q, peq (pmul p (d :: q)) (padd (pscale d p) (0 :: pmul p q)).
+  Proof.
+    induction p as [|c p IH]; intros d q i.
+    - cbn [pmul pscale map padd]. rewrite co_nil. destruct i; [reflexivity|]. rewrite co_cons_S, co_nil. reflexivity.
+    - rewrite co_pmul_cons, co_padd. change (pscale d (c :: p)) with (d * c :: pscale d p).
+      destruct i as [|i].
+      + rewrite !co_cons_0. ring.
+      + rewrite !co_cons_S, IH, co_pmul_cons, !co_padd, co_pscale.
+        destruct i as [|i]; [rewrite !co_cons_0|rewrite !co_cons_S]; ring.
+  Qed.
+
+  Lemma pmul_comm : forall p q, peq (pmul p q) (pmul q p).
+  Proof.
+    induction p as [|c p IH]; intros q.
+    - symmetry. apply pmul_nil_r.
+    - rewrite pmul_cons_r. intros i. rewrite co_pmul_cons, co_padd, co_pscale.
+      destruct i; [rewrite co_cons_0; reflexivity|]. rewrite co_cons_S, IH. reflexivity.
+  Qed.
+
+  Global Instance pmul_proper : Proper (peq ==> peq ==> peq) pmul.
+  Proof.
+    assert (R : forall p q q', peq q q' -> peq (pmul p q) (pmul p q')).
+    { induction p as [|c p IH]; intros q q' Hq i; [reflexivity|].
+      rewrite !co_pmul_cons, Hq. destruct i; [reflexivity|]. rewrite (IH q q' Hq). reflexivity. }
+    intros p p' Hp q q' Hq. rewrite (R p q q' Hq).
+    rewrite (pmul_comm p q'), (pmul_comm p' q'). apply R. exact Hp.
+  Qed.
+
+  Lemma padd_nil_r (p : list F) : padd p [] = p. Proof. destruct p; reflexivity. Qed.
+
+  Lemma pmul_padd_l : forall p q r, peq (pmul (padd p q) r) (padd (pmul p r) (pmul q r)).
+  Proof.
+    induction p as [|a p IH]; intros q r.
+    - cbn [padd pmul]. reflexivity.
+    - destruct q as [|b q].
+      + cbn [padd pmul]. rewrite padd_nil_r. reflexivity.
+      + cbn [padd]. intros i. rewrite co_padd, !co_pmul_cons.
+        destruct i; [ring|]. rewrite IH, co_padd. ring.
+  Qed.
+
+  Lemma pmul_padd_r p q r : peq (pmul r (padd p q)) (padd (pmul r p) (pmul r q)).
+  Proof. rewrite pmul_comm, pmul_padd_l, (pmul_comm p r), (pmul_comm q r). reflexivity. Qed.
+
+  Lemma pmul_pscale_l c : forall p q, peq (pmul (pscale c p) q) (pscale c (pmul p q)).
+  Proof.
+    induction p as [|a p IH]; intros q i; [reflexivity|].
+    change (pscale c (a :: p)) with (c * a :: pscale c p).
+    rewrite co_pmul_cons, co_pscale, co_pmul_cons. destruct i; [ring|]. rewrite IH, co_pscale. ring.
+  Qed.
+
+  Lemma pmul_shift1 p q : peq (pmul (0 :: p) q) (0 :: pmul p q).
+  Proof. intros i. rewrite co_pmul_cons. destruct i; [rewrite co_cons_0|rewrite co_cons_S]; ring. Qed.
+
+  Lemma pmul_assoc : forall p q r, peq (pmul (pmul p q) r) (pmul p (pmul q r)).
+  Proof.
+    induction p as [|c p IH]; intros q r; [reflexivity|].
+    cbn [pmul]. rewrite pmul_padd_l, pmul_pscale_l, pmul_shift1, IH. reflexivity.
+  Qed.
+
+  Lemma pmul_one_r p : peq (pmul p [1]) p.
+  Proof.
+    rewrite pmul_comm. intros i. rewrite co_pmul_cons. cbn [pmul].
+    destruct i; [ring|]. rewrite co_nil. ring.
+  Qed.
+
+  (* ---- shift by X^l, congruence modulo X^l *)
+  Definition shiftp (l : nat) (p : list F) : list F := repeat 0 l ++ p.
+
+  Lemma co_shiftp l p i : co (shiftp l p) i = if Nat.ltb i l then 0 else co p (i - l).
+  Proof.
+    unfold shiftp, co. destruct (Nat.ltb i l) eqn:E.
+    - apply Nat.ltb_lt in E. rewrite app_nth1 by (rewrite repeat_length; exact E). apply nth_repeat.
+    - apply Nat.ltb_ge in E. rewrite app_nth2 by (rewrite repeat_length; exact E). rewrite repeat_length. reflexivity.
+  Qed.
+
+  Global Instance shiftp_proper l : Proper (peq ==> peq) (shiftp l).
+  Proof. intros p p' Hp i. rewrite !co_shiftp. destruct (Nat.ltb i l); [reflexivity|apply Hp]. Qed.
+
+  Lemma pmul_shiftp : forall l p q, peq (pmul (shiftp l p) q) (shiftp l (pmul p q)).
+  Proof.
+    induction l as [|l IH]; intros p q; [reflexivity|].
+    change (shiftp (S l) p) with (0 :: shiftp l p). rewrite pmul_shift1, IH. reflexivity.
+  Qed.
+
+  Lemma app_padd_shift (a b : list F) : peq (a ++ b) (padd a (shiftp (length a) b)).
+  Proof.
+    intros i. rewrite co_padd, co_shiftp. unfold co.
+    destruct (Nat.ltb i (length a)) eqn:E.
+    - apply Nat.ltb_lt in E. rewrite app_nth1 by exact E. ring.
+    - apply Nat.ltb_ge in E. rewrite app_nth2 by exact E. rewrite (nth_overflow a) by exact E. ring.
+  Qed.
+
+  Lemma app_zeros_peq (p : list F) n : peq (p ++ repeat 0 n) p.
+  Proof.
+    intros i. unfold co. destruct (Nat.lt_ge_cases i (length p)) as [H|H].
+    - rewrite app_nth1 by exact H. reflexivity.
+    - rewrite app_nth2 by exact H. rewrite (nth_overflow p) by exact H.
+      destruct (Nat.lt_ge_cases (i - length p) n); [apply nth_repeat|apply nth_overflow; rewrite repeat_length; lia].
+  Qed.
+
+  (* convolution formula *)
+  Lemma fsum_map_zero {X} (g : X -> F) l : (forall x, In x l -> g x = 0) -> fsum (map g l) = 0.
+  Proof.
+    induction l as [|x l IH]; intros H; [reflexivity|]. cbn [map fsum fold_right].
+    rewrite H by (left; reflexivity). fold (fsum (map g l)). rewrite IH by (intros; apply H; right; auto). ring.
+  Qed.
+
+  Lemma co_pmul_conv : forall p q k,
+    co (pmul p q) k = fsum (map (fun i => co p i * co q (k - i)) (seq 0 (S k))).
+  Proof.
+    induction p as [|c p IH]; intros q k.
+    - cbn [pmul]. rewrite co_nil. symmetry. apply fsum_map_zero. intros x _. rewrite co_nil. ring.
+    - rewrite co_pmul_cons. cbn [seq map]. rewrite co_cons_0, Nat.sub_0_r.
+      change (fsum (c * co q k :: ?l)) with (c * co q k + fsum l). f_equal.
+      rewrite <- seq_shift, map_map.
+      destruct k as [|k]; [reflexivity|].
+      rewrite IH. apply (f_equal fsum). apply map_ext. intros i. reflexivity.
+  Qed.
+
+  Lemma eqm_refl l p : eqm l p p. Proof. intros i _. reflexivity. Qed.
+  Lemma eqm_sym l p q : eqm l p q -> eqm l q p. Proof. intros H i Hi. symmetry. apply H. exact Hi. Qed.
+  Lemma eqm_trans l p q r : eqm l p q -> eqm l q r -> eqm l p r.
+  Proof. intros H1 H2 i Hi. rewrite H1 by exact Hi. apply H2. exact Hi. Qed.
+  Lemma peq_eqm l p q : peq p q -> eqm l p q. Proof. intros H i _. apply H. Qed.
+  Lemma eqm_le l l' p q : (l' <= l)%nat -> eqm l p q -> eqm l' p q.
+  Proof. intros Hl H i Hi. apply H. lia. Qed.
+
+  Lemma eqm_pmul l p p' q q' : eqm l p p' -> eqm l q q' -> eqm l (pmul p q) (pmul p' q').
+  Proof.
+    intros Hp Hq k Hk. rewrite !co_pmul_conv. f_equal. apply map_ext_in. intros i Hi. apply in_seq in Hi.
+    rewrite Hp by lia. rewrite Hq by lia. reflexivity.
+  Qed.
+
+  Lemma eqm_firstn l (p : list F) : eqm l (firstn l p) p.
+  Proof.
+    intros i Hi. unfold co. rewrite nth_firstn. destruct (Nat.ltb i l) eqn:E; [reflexivity|apply Nat.ltb_ge in E; lia].
+  Qed.
+
+  Lemma trimmed_peq (p : list F) : peq (trimmed p) p.
+  Proof.
+    intros i. unfold co, trimmed. rewrite nth_firstn. destruct (Nat.ltb i (degree_plus_one p)) eqn:E; [reflexivity|].
+    apply Nat.ltb_ge in E. symmetry. apply degree_plus_one_zero_above. exact E.
+  Qed.
+
+  Lemma map_fneg_peq (p : list F) : peq (map fneg p) (pscale (- (1)) p).
+  Proof.
+    intros i. rewrite co_pscale. unfold co. 
+    destruct (Nat.lt_ge_cases i (length p)) as [H|H].
+    - rewrite (nth_indep _ 0 (fneg 0)) by (rewrite map_length; exact H). rewrite map_nth. ring.
+    - rewrite !nth_overflow by (try rewrite map_length; exact H). ring.
+  Qed.
+
+  (* ---- reversal *)
+  Lemma co_overflow (p : list F) i : (length p <= i)%nat -> co p i = 0.
+  Proof. intros H. unfold co. apply nth_overflow. exact H. Qed.
+
+  Lemma co_rev (p : list F) j : co (rev p) j = if Nat.ltb j (length p) then co p (length p - 1 - j) else 0.
+  Proof.
+    unfold co. destruct (Nat.ltb j (length p)) eqn:E.
+    - apply Nat.ltb_lt in E. rewrite rev_nth by exact E. f_equal. lia.
+    - apply Nat.ltb_ge in E. apply nth_overflow. rewrite rev_length. exact E.
+  Qed.
+
+  Lemma pmul_length : forall (p q : list F), p <> [] -> q <> [] ->
+    length (pmul p q) = (length p + length q - 1)%nat.
+  Proof.
+    induction p as [|c p IH]; intros q Hp Hq; [congruence|].
+    cbn [pmul]. rewrite padd_length, pscale_length. cbn [length].
+    destruct q as [|d q]; [congruence|]. cbn [length].
+    destruct p as [|c' p]; [cbn; lia|].
+    rewrite IH by congruence. cbn [length]. lia.
+  Qed.
+
+  Lemma pmul_single (c : F) q : peq (pmul [c] q) (pscale c q).
+  Proof. intros i. rewrite co_pmul_cons, co_pscale. cbn [pmul]. destruct i; [ring|]. rewrite co_nil. ring. Qed.
+
+  Lemma pmul_rev : forall (p q : list F), p <> [] -> q <> [] -> peq (pmul (rev p) (rev q)) (rev (pmul p q)).
+  Proof.
+    induction p as [|c p IH]; intros q Hp Hq; [congruence|].
+    assert (Lq : (1 <= length q)%nat) by (destruct q; [congruence|cbn; lia]).
+    destruct p as [|c' p'].
+    - intros i. cbn [rev app]. rewrite pmul_single, co_pscale, !co_rev.
+      rewrite (pmul_length [c] q) by congruence. cbn [length].
+      replace (1 + length q - 1)%nat with (length q) by lia.
+      destruct (Nat.ltb i (length q)); [|ring]. rewrite pmul_single, co_pscale. reflexivity.
+    - set (p := c' :: p') in *. assert (Hp' : p <> []) by (unfold p; congruence).
+      specialize (IH q Hp' Hq).
+      assert (LX : length (pmul p q) = (length p + length q - 1)%nat) by (apply pmul_length; assumption).
+      assert (LY : length (pmul (c :: p) q) = (length p + length q)%nat)
+        by (rewrite pmul_length by (congruence || assumption); cbn [length]; lia).
+      assert (Lp : (1 <= length p)%nat) by (unfold p; cbn; lia).
+      intros i. cbn [rev]. fold (rev p).
+      rewrite (app_padd_shift (rev p) [c] : peq (rev p ++ [c]) _).
+      rewrite rev_length, pmul_padd_l, pmul_shiftp, pmul_single, IH.
+      rewrite co_padd, co_shiftp, !co_rev, LX, LY, co_pscale, co_rev.
+      destruct (Nat.ltb i (length p + length q)) eqn:E1.
+      + apply Nat.ltb_lt in E1. rewrite co_pmul_cons.
+        destruct (Nat.ltb i (length p + length q - 1)) eqn:E2.
+        * apply Nat.ltb_lt in E2.
+          replace (length p + length q - 1 - i)%nat with (S (length p + length q - 1 - 1 - i)) by lia.
+          destruct (Nat.ltb i (length p)) eqn:E3.
+          -- apply Nat.ltb_lt in E3. rewrite (co_overflow q) by lia. ring.
+          -- apply Nat.ltb_ge in E3.
+             replace (Nat.ltb (i - length p) (length q)) with true by (symmetry; apply Nat.ltb_lt; lia).
+             replace (length q - 1 - (i - length p))%nat with (S (length p + length q - 1 - 1 - i)) by lia. ring.
+        * apply Nat.ltb_ge in E2. replace (length p + length q - 1 - i)%nat with 0%nat by lia.
+          replace (Nat.ltb i (length p)) with false by (symmetry; apply Nat.ltb_ge; lia).
+          replace (Nat.ltb (i - length p) (length q)) with true by (symmetry; apply Nat.ltb_lt; lia).
+          replace (length q - 1 - (i - length p))%nat with 0%nat by lia. ring.
+      + apply Nat.ltb_ge in E1.
+        replace (Nat.ltb i (length p + length q - 1)) with false by (symmetry; apply Nat.ltb_ge; lia).
+        replace (Nat.ltb i (length p)) with false by (symmetry; apply Nat.ltb_ge; lia).
+        replace (Nat.ltb (i - length p) (length q)) with false by (symmetry; apply Nat.ltb_ge; lia). ring.
+  Qed.
+
+  Lemma peq_peval : forall (p q : list F), peq p q -> forall x, peval p x = peval q x.
+  Proof.
+    induction p as [|a p IH]; intros q H x.
+    - symmetry. apply peval_pzero. unfold pzero. apply Forall_forall. intros y Hy.
+      destruct (In_nth q y 0 Hy) as [i [_ E]]. rewrite <- E. pose proof (H i) as Hi. rewrite co_nil in Hi. symmetry. exact Hi.
+    - destruct q as [|b q].
+      + apply peval_pzero. unfold pzero. apply Forall_forall. intros y Hy.
+        destruct (In_nth (a :: p) y 0 Hy) as [i [_ E]]. rewrite <- E. pose proof (H i) as Hi. rewrite co_nil in Hi. exact Hi.
+      + cbn [peval]. pose proof (H 0%nat) as H0. cbn in H0. rewrite H0.
+        rewrite (IH q); [reflexivity|]. intros i. apply (H (S i)).
+  Qed.
+
+  (* one Newton step, as algebra: from a h = 1 mod X^l to (a + X^l b) h = 1 mod X^(2l) *)
+  Lemma newton_step l (a h e tmp b : list F) : (1 <= l)%nat -> length a = l ->
+    peq (pmul a h) (padd [1] (shiftp l e)) -> peq tmp (pscale (- (1)) e) -> eqm l b (pmul a tmp) ->
+    eqm (l + l) (pmul (a ++ b) h) [1].
+  Proof.
+    intros Hl La He Htmp Hb.
+    assert (E1 : peq (pmul (a ++ b) h) (padd (padd [1] (shiftp l e)) (shiftp l (pmul b h)))).
+    { rewrite app_padd_shift, La, pmul_padd_l, pmul_shiftp, He. reflexivity. }
+    assert (E2 : eqm l (pmul b h) (pscale (- (1)) e)).
+    { eapply eqm_trans; [apply (eqm_pmul l b (pmul a tmp) h h Hb (eqm_refl l h))|].
+      assert (E3 : peq (pmul (pmul a tmp) h) (pmul tmp (pmul a h))).
+      { rewrite (pmul_comm a tmp), pmul_assoc. reflexivity. }
+      eapply eqm_trans; [apply peq_eqm; exact E3|].
+      eapply eqm_trans; [apply (eqm_pmul l tmp tmp (pmul a h) [1] (eqm_refl l tmp))|].
+      - intros i Hi. rewrite He, co_padd, co_shiftp.
+        replace (Nat.ltb i l) with true by (symmetry; apply Nat.ltb_lt; exact Hi). ring.
+      - apply peq_eqm. rewrite pmul_one_r. exact Htmp. }
+    intros i Hi. rewrite E1, !co_padd, !co_shiftp.
+    destruct (Nat.ltb i l) eqn:E.
+    - ring.
+    - apply Nat.ltb_ge in E. rewrite (E2 (i - l)%nat) by lia. rewrite co_pscale.
+      replace (co [1] i) with 0 by (unfold co; destruct i as [|[|i]]; try reflexivity; lia). ring.
+  Qed.
+End PolyRing.
+
+(* ---------------------------------------------------------------- inv_mod_xn (Newton iteration) *)
+Section InvModXn.
+  Context {F : Type} {FO : FieldOps F} {FL : @FieldLaws F FO} {TA : TwoAdic F} {TL : TwoAdicLaws F}.
+  Add Field Ffn : (@F_field_theory F FO FL).
+
+  Lemma log2_ceil_nat_le n m : (n <= 2 ^ m)%nat -> (log2_ceil_nat n <= m)%nat.
+  Proof.
+    intros H. unfold log2_ceil_nat, log2_ceil.
+    destruct (N.eq_dec (N.of_nat n - 1) 0) as [E|E]; [rewrite E; cbn; lia|].
+    rewrite N.size_log2 by exact E.
+    assert (Hx : (N.of_nat n - 1 < 2 ^ N.of_nat m)%N) by (rewrite <- pow2_N; lia).
+    apply N.log2_lt_pow2 in Hx; lia.
+  Qed.
+
+  Lemma log2_ceil_nat_ge n : (n <= 2 ^ log2_ceil_nat n)%nat.
+  Proof. rewrite <- next_power_of_two_eq. apply next_power_of_two_ge. Qed.
+
+  Lemma log2_ceil_nat_lt i n : (i < log2_ceil_nat n)%nat -> (2 ^ i < n)%nat.
+  Proof.
+    intros H. destruct (Nat.lt_ge_cases (2 ^ i) n) as [Hlt|Hge]; [exact Hlt|].
+    pose proof (log2_ceil_nat_le n i Hge). lia.
+  Qed.
+
+  (* M bounds every transform size that occurs *)
+  Variable M : nat.
+  Hypothesis HMT : (M <= ta_two_adicity)%nat.
+  Hypothesis HM64 : (M < 64)%nat.
+
+  Lemma poly_mul_ok (x y : list F) : (length x + length y <= 2 ^ M)%nat ->
+    exists c, poly_mul x y = Some c /\ peq c (pmul x y) /\
+              length c = (2 ^ log2_ceil_nat (length x + length y))%nat.
+  Proof.
+    intros Hs. pose proof (log2_ceil_nat_le _ _ Hs) as HK.
+    destruct (mul_spec x y ltac:(lia) ltac:(lia)) as [E _].
+    eexists. split; [exact E|]. split; [apply app_zeros_peq|].
+    rewrite app_length, repeat_length.
+    pose proof (pmul_length_le x y). pose proof (log2_ceil_nat_ge (length x + length y)). lia.
+  Qed.
+
+  Lemma poly_add_ok (x y : list F) :
+    exists c, poly_add x y = Some c /\ peq c (padd x y) /\ length c = Nat.max (length x) (length y).
+  Proof.
+    unfold poly_add. rewrite !padded_ok by lia. cbn [bind].
+    set (m := Nat.max (length x) (length y)).
+    set (x' := x ++ repeat 0 (m - length x)). set (y' := y ++ repeat 0 (m - length y)).
+    assert (Lx : length x' = m) by (unfold x'; rewrite app_length, repeat_length; lia).
+    assert (Ly : length y' = m) by (unfold y'; rewrite app_length, repeat_length; lia).
+    eexists. split; [reflexivity|]. split; [|rewrite zip_with_length; lia].
+    intros i. rewrite co_padd. rewrite <- (app_zeros_peq x (m - length x) i), <- (app_zeros_peq y (m - length y) i).
+    fold x' y'. unfold co. destruct (Nat.lt_ge_cases i m) as [H|H].
+    - apply (nth_zip_with fadd 0 0 0); lia.
+    - rewrite !nth_overflow; [ring| | |]; try lia. rewrite zip_with_length; lia.
+  Qed.
+
+  Lemma inv_step_ok (h a : list F) (i : nat) :
+    (2 ^ i <= length h)%nat -> (length h + length h <= 2 ^ M)%nat -> (2 * 2 ^ log2_ceil_nat (length h) <= 2 ^ M)%nat ->
+    length a = (2 ^ i)%nat -> eqm (2 ^ i) (pmul a h) [1] ->
+    exists a', inv_mod_xn_step h a i = Some a' /\ length a' = (2 ^ S i)%nat /\ eqm (2 ^ S i) (pmul a' h) [1].
+  Proof.
+    intros Hl HM1 HM2 La Inv. unfold inv_mod_xn_step, slice_to, slice_from. cbv zeta.
+    set (l := (2 ^ i)%nat) in *. assert (Hl1 : (1 <= l)%nat) by (unfold l; pose proof (Nat.pow_nonzero 2 i); lia).
+    set (Hm := length h) in *. pose proof (log2_ceil_nat_ge Hm) as HmP. set (Mh := log2_ceil_nat Hm) in *.
+    replace (Nat.ltb Hm l) with false by (symmetry; apply Nat.ltb_ge; exact Hl). cbn [bind].
+    set (h0 := firstn l h). set (h1 := skipn l h).
+    assert (Lh0 : length h0 = l) by (unfold h0; rewrite firstn_length; lia).
+    assert (Lh1 : length h1 = (Hm - l)%nat) by (unfold h1; rewrite skipn_length; reflexivity).
+    (* c = (a * h0) / X^l *)
+    destruct (poly_mul_ok a h0 ltac:(lia)) as [cf [Ecf [Pcf Lcf]]]. rewrite Ecf. cbn [bind].
+    rewrite La, Lh0 in Lcf.
+    assert (Lcf2 : length cf = (l + l)%nat).
+    { assert (K1 : (log2_ceil_nat (l + l) <= S i)%nat) by (apply log2_ceil_nat_le; unfold l; cbn; lia).
+      pose proof (log2_ceil_nat_ge (l + l)). pose proof (Nat.pow_le_mono_r 2 _ _ ltac:(lia) K1).
+      unfold l in *. cbn [Nat.pow] in *. lia. }
+    replace (Nat.eqb l (length cf)) with false by (symmetry; apply Nat.eqb_neq; lia).
+    replace (Nat.ltb (length cf) l) with false by (symmetry; apply Nat.ltb_ge; lia). cbn [bind].
+    set (c := skipn l cf). assert (Lc : length c = l) by (unfold c; rewrite skipn_length; lia).
+    (* tmp = -(a * h1 + c) *)
+    set (h1' := trimmed h1).
+    assert (Lh1' : (length h1' <= Hm - l)%nat) by (unfold h1'; rewrite trimmed_length; pose proof (degree_plus_one_le h1); lia).
+    destruct (poly_mul_ok a h1' ltac:(lia)) as [t0 [Et0 [Pt0 Lt0]]]. rewrite Et0. cbn [bind].
+    assert (Lt0' : (length t0 <= 2 ^ Mh)%nat).
+    { rewrite Lt0. apply Nat.pow_le_mono_r; [lia|]. apply log2_ceil_nat_le. lia. }
+    destruct (poly_add_ok t0 c) as [t1 [Et1 [Pt1 Lt1]]]. rewrite Et1. cbn [bind].
+    set (tmp := trimmed (map fneg t1)).
+    assert (Ltmp : (length tmp <= 2 ^ Mh)%nat).
+    { unfold tmp. rewrite trimmed_length. pose proof (degree_plus_one_le (map fneg t1)). rewrite map_length in H. lia. }
+    destruct (poly_mul_ok a tmp ltac:(lia)) as [bf [Ebf [Pbf Lbf]]]. rewrite Ebf. cbn [bind].
+    set (b1 := if Nat.ltb l (length (trimmed bf)) then firstn l (trimmed bf) else trimmed bf).
+    set (b := b1 ++ repeat 0 (l - length b1)).
+    assert (Lb1 : (length b1 <= l)%nat).
+    { unfold b1. destruct (Nat.ltb l (length (trimmed bf))) eqn:E; [rewrite firstn_length; lia|apply Nat.ltb_ge in E; exact E]. }
+    assert (Lb : length b = l) by (unfold b; rewrite app_length, repeat_length; lia).
+    assert (Hb : eqm l b (pmul a tmp)).
+    { intros j Hj. unfold b. rewrite (app_zeros_peq b1 _ j). rewrite <- (Pbf j), <- (trimmed_peq bf j).
+      unfold b1. destruct (Nat.ltb l (length (trimmed bf))); [apply eqm_firstn; exact Hj|reflexivity]. }
+    eexists. split; [reflexivity|]. split; [rewrite app_length, La, Lb; cbn; lia|].
+    replace (2 ^ S i)%nat with (l + l)%nat by (unfold l; cbn; lia).
+    set (e := padd (pmul a h1') c).
+    apply (newton_step l a h e tmp b Hl1 La).
+    - (* a h = 1 + X^l e *)
+      assert (Eh : peq h (padd h0 (shiftp l h1))).
+      { rewrite <- Lh0. rewrite <- app_padd_shift. unfold h0, h1. rewrite firstn_skipn. reflexivity. }
+      assert (E0 : peq (pmul a h0) (padd [1] (shiftp l c))).
+      { intros j. rewrite co_padd, co_shiftp. destruct (Nat.ltb j l) eqn:E.
+        - apply Nat.ltb_lt in E. rewrite (eqm_pmul l a a h0 h (eqm_refl l a) (eqm_firstn l h) j E).
+          rewrite (Inv j E). ring.
+        - apply Nat.ltb_ge in E. rewrite <- (Pcf j). unfold c, co. rewrite nth_skipn'.
+          replace (l + (j - l))%nat with j by lia.
+          replace (nth j [1] 0) with 0 by (destruct j as [|[|j]]; try reflexivity; lia). ring. }
+      rewrite Eh at 1. rewrite pmul_padd_r, E0.
+      rewrite (pmul_comm a (shiftp l h1)), pmul_shiftp, (pmul_comm h1 a).
+      intros j. unfold e. rewrite !co_padd, !co_shiftp. destruct (Nat.ltb j l); [ring|].
+      rewrite co_padd. unfold h1'. rewrite (pmul_proper a a (reflexivity a) (trimmed h1) h1 (trimmed_peq h1) (j - l)%nat). ring.
+    - unfold tmp. rewrite trimmed_peq, map_fneg_peq. apply pscale_proper. rewrite Pt1, Pt0. reflexivity.
+    - exact Hb.
+  Qed.
+
+  Lemma inv_loop_ok (h : list F) (a0 : list F) (L : nat) :
+    (forall i, (i < L)%nat -> (2 ^ i <= length h)%nat) ->
+    (length h + length h <= 2 ^ M)%nat -> (2 * 2 ^ log2_ceil_nat (length h) <= 2 ^ M)%nat ->
+    length a0 = 1%nat -> eqm 1 (pmul a0 h) [1] ->
+    forall j, (j <= L)%nat ->
+      exists a, foldM (inv_mod_xn_step h) (seq 0 j) a0 = Some a /\ length a = (2 ^ j)%nat /\ eqm (2 ^ j) (pmul a h) [1].
+  Proof.
+    intros Hl HM1 HM2 La0 Inv0. induction j as [|j IH]; intros Hj.
+    - exists a0. split; [reflexivity|]. split; [exact La0|exact Inv0].
+    - destruct (IH ltac:(lia)) as [a [E [La Inv]]].
+      destruct (inv_step_ok h a j (Hl j ltac:(lia)) HM1 HM2 La Inv) as [a' [E' [La' Inv']]].
+      exists a'. rewrite seq_S, foldM_app, E. cbn [plus foldM]. rewrite E'. auto.
+  Qed.
+
+  (* inv_mod_xn(p, n): for n > 0 and p(0) <> 0 the result a satisfies p * a = 1 mod X^n
+     (the first n coefficients of the schoolbook product are 1, 0, .., 0); it has n coefficients,
+     or the single coefficient 1/p(0) when p is a constant *)
+  Theorem inv_mod_xn_spec : forall (p : list F) (n : nat), (0 < n)%nat -> co p 0 <> 0 ->
+    let Hm := Nat.max (length p) n in
+    (Hm + Hm <= 2 ^ M)%nat -> (2 * 2 ^ log2_ceil_nat Hm <= 2 ^ M)%nat ->
+    exists a, inv_mod_xn p n = Some a /\
+              length a = (if Nat.eqb (degree_plus_one p) 1 then 1 else n)%nat /\
+              eqm n (pmul p a) [1].
+  Proof.
+    intros p n Hn Hp0 Hm HM1 HM2. unfold inv_mod_xn.
+    replace (Nat.eqb n 0) with false by (symmetry; apply Nat.eqb_neq; lia).
+    destruct p as [|c0 p']; [exfalso; apply Hp0; reflexivity|].
+    set (p := c0 :: p') in *. change (co p 0) with c0 in Hp0.
+    assert (Ez : is_zero_f c0 = false) by (apply feqb_false; exact Hp0). rewrite Ez.
+    assert (Ei : inverse c0 = Some (finv c0)) by (unfold inverse; fold (is_zero_f c0); rewrite Ez; reflexivity).
+    destruct (Nat.eqb (degree_plus_one p) 1) eqn:Ed.
+    - rewrite Ei. cbn [bind]. eexists. split; [reflexivity|]. split; [reflexivity|].
+      apply Nat.eqb_eq in Ed. apply peq_eqm.
+      assert (Ep : peq p [c0]).
+      { intros [|i]; [reflexivity|]. unfold co at 1. rewrite (degree_plus_one_zero_above p (S i)) by lia.
+        symmetry. apply co_nil. }
+      rewrite Ep. intros [|i]; unfold co; cbn; [rewrite f_inv_r by exact Hp0; ring|destruct i; ring].
+    - set (h := if Nat.ltb (length p) n then p ++ repeat 0 (n - length p) else p).
+      assert (Eh : (if Nat.ltb (length p) n then padded p n else Some p) = Some h).
+      { unfold h. destruct (Nat.ltb (length p) n) eqn:E; [apply Nat.ltb_lt in E; rewrite padded_ok by lia; reflexivity|reflexivity]. }
+      rewrite Eh. cbn [bind].
+      assert (Lh : length h = Hm).
+      { unfold h, Hm. destruct (Nat.ltb (length p) n) eqn:E; [apply Nat.ltb_lt in E; rewrite app_length, repeat_length; lia|apply Nat.ltb_ge in E; lia]. }
+      assert (Php : peq h p) by (unfold h; destruct (Nat.ltb (length p) n); [apply app_zeros_peq|reflexivity]).
+      assert (Eh0 : nth_error h 0 = Some c0) by (unfold h; destruct (Nat.ltb (length p) n); reflexivity).
+      rewrite Eh0. cbn [bind]. rewrite Ei. cbn [bind].
+      set (L := N.to_nat (log2_ceil (N.of_nat n))). change L with (log2_ceil_nat n).
+      destruct (inv_loop_ok h [finv c0] (log2_ceil_nat n)) with (j := log2_ceil_nat n) as [a [E [La Inv]]].
+      + intros i Hi. pose proof (log2_ceil_nat_lt i n Hi). rewrite Lh. unfold Hm. lia.
+      + rewrite Lh. exact HM1.
+      + rewrite Lh. exact HM2.
+      + reflexivity.
+      + intros i Hi. assert (i = 0)%nat by lia. subst i. rewrite (Php : peq h p).
+        unfold co. cbn. rewrite f_mul_comm, f_inv_r by exact Hp0. ring.
+      + lia.
+      + rewrite E. cbn [bind]. unfold slice_to. pose proof (log2_ceil_nat_ge n) as Hge.
+        replace (Nat.ltb (length a) n) with false by (symmetry; apply Nat.ltb_ge; lia).
+        eexists. split; [reflexivity|]. split; [rewrite firstn_length; lia|].
+        intros i Hi. rewrite (pmul_comm p (firstn n a) i).
+        rewrite (eqm_pmul n (firstn n a) a p h (eqm_firstn n a) (peq_eqm n p h (symmetry Php)) i Hi).
+        apply Inv. lia.
+  Qed.
+End InvModXn.
+
+(* ---------------------------------------------------------------- div_rem (Newton inversion path) *)
+Section DivRem.
+  Context {F : Type} {FO : FieldOps F} {FL : @FieldLaws F FO} {TA : TwoAdic F} {TL : TwoAdicLaws F}.
+  Add Field Ffd : (@F_field_theory F FO FL).
+
+  Lemma sub_prefix_ok : forall (y cs : list F), (length y <= length cs)%nat ->
+    exists r, sub_prefix cs y = Some r /\ length r = length cs /\ forall i, co r i = co cs i - co y i.
+  Proof.
+    induction y as [|c y IH]; intros cs Hl.
+    - exists cs. split; [destruct cs; reflexivity|]. split; [reflexivity|]. intros i. rewrite co_nil. ring.
+    - destruct cs as [|x cs]; [cbn in Hl; lia|].
+      destruct (IH cs ltac:(cbn in Hl; lia)) as [t [E [L G]]].
+      cbn [sub_prefix]. rewrite E. eexists. split; [reflexivity|]. split; [cbn; lia|].
+      intros [|i]; [reflexivity|]. rewrite !co_cons_S. apply G.
+  Qed.
+
+  Lemma poly_sub_ok (x y : list F) : exists r, poly_sub x y = Some r /\ forall i, co r i = co x i - co y i.
+  Proof.
+    unfold poly_sub. rewrite padded_ok by lia. cbn [bind].
+    destruct (sub_prefix_ok y (x ++ repeat 0 (Nat.max (length x) (length y) - length x))) as [r [E [_ G]]].
+    - rewrite app_length, repeat_length. lia.
+    - exists r. split; [exact E|]. intros i. rewrite G. rewrite (app_zeros_peq x _ i). reflexivity.
+  Qed.
+
+  Lemma trimmed_nonempty (p : list F) : degree_plus_one p <> 0%nat -> trimmed p <> [].
+  Proof. intros H E. apply (f_equal (@length F)) in E. rewrite trimmed_length in E. cbn in E. lia. Qed.
+
+  (* division with remainder through Newton inversion of the reversed divisor:
+     a = q b + r and deg r < deg b, for every divisor that is not the zero polynomial
+     (premise: the FFT sizes used, at most 2 * next_power_of_two(len a + len b), are supported) *)
+  Theorem div_rem_spec : forall (a b : list F), degree_plus_one b <> 0%nat ->
+    let M := S (log2_ceil_nat (length a + length b)) in
+    (M <= ta_two_adicity)%nat -> (M < 64)%nat ->
+    exists q r, div_rem a b = Some (q, r) /\
+                (forall x, peval a x = peval q x * peval b x + peval r x) /\
+                (degree_plus_one r < degree_plus_one b)%nat.
+  Proof.
+    intros a b Hb M HMT HM64. unfold div_rem. cbv zeta.
+    set (n := degree_plus_one a). set (m := degree_plus_one b). fold m in Hb.
+    destruct (Nat.eqb n 0) eqn:En0.
+    - apply Nat.eqb_eq in En0. exists [0], []. split; [reflexivity|]. split; [|cbn; lia].
+      intros x. rewrite <- (peval_trimmed a). unfold trimmed. fold n. rewrite En0. cbn. ring.
+    - apply Nat.eqb_neq in En0.
+      destruct (Nat.eqb m 0) eqn:Em0; [apply Nat.eqb_eq in Em0; contradiction|].
+      destruct (Nat.ltb n m) eqn:Elt.
+      + apply Nat.ltb_lt in Elt. exists [0], a. split; [reflexivity|]. split; [intros x; cbn; ring|exact Elt].
+      + apply Nat.ltb_ge in Elt.
+        destruct (Nat.eqb m 1) eqn:Em1.
+        * (* constant divisor *)
+          apply Nat.eqb_eq in Em1.
+          assert (Hb0 : nth 0 b 0 <> 0) by (apply degree_plus_one_lead; exact Em1).
+          destruct b as [|b0 b']; [cbn in Hb0; congruence|]. cbn [nth] in Hb0. cbn [nth_error bind].
+          unfold inverse. replace (b0 =? 0) with false by (symmetry; apply feqb_false; exact Hb0). cbn [bind].
+          eexists _, []. split; [reflexivity|]. split; [|change (0 < m)%nat; lia].
+          intros x. unfold poly_scalar_mul. change (map (fun y => finv b0 * y) a) with (pscale (finv b0) a). rewrite peval_pscale.
+          assert (Eb : peval (b0 :: b') x = b0).
+          { rewrite <- peval_trimmed. unfold trimmed. fold m. rewrite Em1. cbn. ring. }
+          rewrite Eb. cbn [peval]. field. exact Hb0.
+        * apply Nat.eqb_neq in Em1. assert (Hm2 : (2 <= m)%nat) by lia.
+          cbv zeta. set (d := (n - m)%nat). replace (d + 1)%nat with (S d) by lia.
+          set (A := trimmed a). set (B := trimmed b).
+          assert (LA : length A = n) by apply trimmed_length.
+          assert (LB : length B = m) by apply trimmed_length.
+          assert (PA : peq A a) by apply trimmed_peq. assert (PB : peq B b) by apply trimmed_peq.
+          assert (HB0 : B <> []) by (apply trimmed_nonempty; fold m; lia).
+          unfold poly_rev. fold A B.
+          set (ra := rev A). set (rb := rev B).
+          assert (Lra : length ra = n) by (unfold ra; rewrite rev_length; exact LA).
+          assert (Lrb : length rb = m) by (unfold rb; rewrite rev_length; exact LB).
+          pose proof (degree_plus_one_le a) as HnLa. fold n in HnLa.
+          pose proof (degree_plus_one_le b) as HmLb. fold m in HmLb.
+          set (K := log2_ceil_nat (length a + length b)) in *.
+          pose proof (log2_ceil_nat_ge (length a + length b)) as HK. fold K in HK.
+          assert (E2M : (2 ^ M = 2 * 2 ^ K)%nat) by (unfold M; reflexivity).
+          (* the inverse of the reversed divisor *)
+          assert (Hrb0 : co rb 0 <> 0).
+          { unfold rb. rewrite co_rev, LB. replace (Nat.ltb 0 m) with true by (symmetry; apply Nat.ltb_lt; lia).
+            rewrite Nat.sub_0_r. rewrite (PB (m - 1)%nat). unfold co.
+            apply degree_plus_one_lead. fold m. lia. }
+          destruct (inv_mod_xn_spec M HMT HM64 rb (S d) ltac:(lia) Hrb0) as [inv [Einv [Linv Hinv]]].
+          { rewrite Lrb. unfold d. lia. }
+          { rewrite Lrb. pose proof (log2_ceil_nat_le (Nat.max m (S d)) K ltac:(unfold d; lia)) as HH.
+            pose proof (Nat.pow_le_mono_r 2 _ _ ltac:(lia) HH). lia. }
+          rewrite Einv. cbn [bind].
+          assert (Linv' : (1 <= length inv <= S d)%nat) by (rewrite Linv; destruct (Nat.eqb (degree_plus_one rb) 1); lia).
+          unfold slice_to. rewrite Lra.
+          replace (Nat.ltb n (S d)) with false by (symmetry; apply Nat.ltb_ge; unfold d; lia). cbn [bind].
+          set (rhs := firstn (S d) ra).
+          assert (Lrhs : length rhs = S d) by (unfold rhs; rewrite firstn_length; unfold d in *; lia).
+          destruct (poly_mul_ok M HMT HM64 inv rhs ltac:(rewrite Lrhs; unfold d in *; lia)) as [prod [Eprod [Pprod Lprod]]].
+          rewrite Eprod. cbn [bind].
+          pose proof (log2_ceil_nat_ge (length inv + length rhs)) as Hpl. rewrite <- Lprod, Lrhs in Hpl.
+          replace (Nat.ltb (length prod) (S d)) with false by (symmetry; apply Nat.ltb_ge; lia). cbn [bind].
+          set (rq := firstn (S d) prod).
+          assert (Lrq : length rq = S d) by (unfold rq; rewrite firstn_length; lia).
+          set (q := rev rq). assert (Lq : length q = S d) by (unfold q; rewrite rev_length; exact Lrq).
+          assert (Hq0 : q <> []) by (intros E; rewrite E in Lq; cbn in Lq; lia).
+          destruct (poly_mul_ok M HMT HM64 q b ltac:(rewrite Lq; unfold d in *; lia)) as [qb [Eqb [Pqb _]]].
+          rewrite Eqb. cbn [bind].
+          destruct (poly_sub_ok a qb) as [r [Er Gr]]. rewrite Er. cbn [bind].
+          exists (trimmed q), (trimmed r). split; [reflexivity|]. split.
+          -- intros x. rewrite !peval_trimmed.
+             assert (Pr : peq r (padd a (pscale (- (1)) qb))) by (intros i; rewrite Gr, co_padd, co_pscale; ring).
+             rewrite (peq_peval r _ Pr x), peval_padd, peval_pscale.
+             rewrite (peq_peval qb _ Pqb x), peval_pmul. ring.
+          -- rewrite degree_plus_one_trimmed.
+             assert (Hdeg : (degree_plus_one r <= m - 1)%nat); [|fold m; lia].
+             apply degree_plus_one_bound. intros k Hk. change (nth k r 0) with (co r k). rewrite Gr.
+             set (X := pmul q B).
+             assert (LX : length X = n) by (unfold X; rewrite pmul_length by assumption; rewrite Lq, LB; unfold d; lia).
+             assert (PX : peq qb X) by (unfold X; rewrite Pqb, PB; reflexivity).
+             rewrite (PX k).
+             destruct (Nat.lt_ge_cases k n) as [Hkn|Hkn].
+             ++ set (j := (n - 1 - k)%nat). assert (Hj : (j < S d)%nat) by (unfold j, d; lia).
+                assert (E1 : co (pmul rq rb) j = co X k).
+                { assert (Erq : rq = rev q) by (unfold q; rewrite rev_involutive; reflexivity).
+                  rewrite Erq. unfold rb. rewrite (pmul_rev q B Hq0 HB0 j). fold X.
+                  rewrite co_rev, LX. replace (Nat.ltb j n) with true by (symmetry; apply Nat.ltb_lt; unfold j; lia).
+                  f_equal. unfold j. lia. }
+                assert (E2 : co (pmul rq rb) j = co ra j).
+                { assert (Q1 : eqm (S d) rq (pmul inv ra)).
+                  { eapply eqm_trans; [apply eqm_firstn|]. eapply eqm_trans; [apply peq_eqm; exact Pprod|].
+                    apply eqm_pmul; [apply eqm_refl|apply eqm_firstn]. }
+                  rewrite (eqm_pmul (S d) rq (pmul inv ra) rb rb Q1 (eqm_refl _ rb) j Hj).
+                  assert (Q2 : peq (pmul (pmul inv ra) rb) (pmul ra (pmul rb inv))).
+                  { rewrite (pmul_comm inv ra), pmul_assoc, (pmul_comm inv rb). reflexivity. }
+                  rewrite (Q2 j).
+                  rewrite (eqm_pmul (S d) ra ra (pmul rb inv) [1] (eqm_refl _ ra) Hinv j Hj).
+                  apply pmul_one_r. }
+                rewrite <- E1, E2. unfold ra. rewrite co_rev, LA.
+                replace (Nat.ltb j n) with true by (symmetry; apply Nat.ltb_lt; unfold j; lia).
+                replace (n - 1 - j)%nat with k by (unfold j; lia). rewrite (PA k). ring.
+             ++ rewrite (co_overflow X) by lia. unfold co at 1.
+                rewrite (degree_plus_one_zero_above a k) by (fold n; lia). ring.
+  Qed.
+End DivRem.
+
 (* ---------------------------------------------------------------- interpolation (partial results) *)
 Local Open Scope field_scope.
 Section Interp.
@@ -512,3 +1147,154 @@ Section Interp.
         * exfalso. apply nth_error_In in Hn. apply (find_none _ _ Ef) in Hn. cbn in Hn. rewrite feqb_refl in Hn. discriminate.
   Qed.
 End Interp.
+
+(* ---------------------------------------------------------------- barycentric interpolation off the nodes *)
+From Verif Require Import Proofs.FieldGeneric.
+Local Open Scope field_scope.
+Section Barycentric.
+  Context {F : Type} {FO : FieldOps F} {FL : @FieldLaws F FO} {TA : TwoAdic F}.
+  Add Field Ffb : (@F_field_theory F FO FL).
+
+  Lemma fold_left_fmul_acc : forall (l : list F) (acc : F), fold_left fmul l acc = acc * fold_left fmul l 1.
+  Proof.
+    induction l as [|x l IH]; intros acc; cbn [fold_left]; [ring|].
+    rewrite IH, (IH (1 * x)). ring.
+  Qed.
+  Lemma fproduct_cons (x : F) l : fproduct (x :: l) = x * fproduct l.
+  Proof. unfold fproduct. cbn [fold_left]. rewrite fold_left_fmul_acc. ring. Qed.
+
+  Lemma fold_left_fadd_acc : forall (l : list F) (acc : F), fold_left fadd l acc = acc + fold_left fadd l 0.
+  Proof.
+    induction l as [|x l IH]; intros acc; cbn [fold_left]; [ring|].
+    rewrite IH, (IH (0 + x)). ring.
+  Qed.
+  Lemma fsum_l_cons (x : F) l : fsum_l (x :: l) = x + fsum_l l.
+  Proof. unfold fsum_l. cbn [fold_left]. rewrite fold_left_fadd_acc. ring. Qed.
+
+  Lemma fsum_l_scale (c : F) {X} (t : X -> F) l : c * fsum_l (map t l) = fsum_l (map (fun i => c * t i) l).
+  Proof.
+    induction l as [|x l IH]; [cbn; ring|]. cbn [map]. rewrite !fsum_l_cons, <- IH. ring.
+  Qed.
+
+  Lemma fsum_l_ext {X} (t t' : X -> F) l : (forall i, In i l -> t i = t' i) -> fsum_l (map t l) = fsum_l (map t' l).
+  Proof. intros H. f_equal. apply map_ext_in. exact H. Qed.
+
+  (* split one factor off a product over a duplicate-free index list *)
+  Lemma fproduct_split (g : nat -> F) : forall (l : list nat) i, NoDup l -> In i l ->
+    fproduct (map g l) = g i * fproduct (map g (filter (fun j => negb (Nat.eqb j i)) l)).
+  Proof.
+    induction l as [|a l IH]; intros i Hnd Hin; [destruct Hin|].
+    apply NoDup_cons_iff in Hnd. destruct Hnd as [Ha Hnd]. cbn [map filter]. rewrite fproduct_cons.
+    destruct (Nat.eqb a i) eqn:E.
+    - apply Nat.eqb_eq in E. subst a. cbn [negb]. f_equal. f_equal. f_equal.
+      symmetry. clear IH Hin Hnd. induction l as [|b l IHl]; [reflexivity|].
+      cbn [filter]. destruct (Nat.eqb b i) eqn:Eb.
+      + apply Nat.eqb_eq in Eb. subst b. exfalso. apply Ha. left. reflexivity.
+      + cbn [negb]. f_equal. apply IHl. intros H. apply Ha. right. exact H.
+    - cbn [negb map]. rewrite fproduct_cons. destruct Hin as [Hin|Hin]; [apply Nat.eqb_neq in E; congruence|].
+      rewrite (IH i Hnd Hin). ring.
+  Qed.
+
+  Lemma fproduct_nonzero (l : list F) : (forall y, In y l -> y <> 0) -> fproduct l <> 0.
+  Proof.
+    induction l as [|x l IH]; intros H; [unfold fproduct; cbn; apply f_1_neq_0|].
+    rewrite fproduct_cons. apply f_mul_neq_0; [apply H; left; reflexivity|apply IH; intros; apply H; right; auto].
+  Qed.
+
+  Lemma find_none_intro {X} (f : X -> bool) l : (forall y, In y l -> f y = false) -> find f l = None.
+  Proof.
+    induction l as [|x l IH]; intros H; [reflexivity|]. cbn [find]. rewrite H by (left; reflexivity).
+    apply IH. intros; apply H; right; auto.
+  Qed.
+
+  Lemma mapM_all_some {X Y} (f : X -> option Y) (g : X -> Y) l : (forall x, In x l -> f x = Some (g x)) ->
+    mapM f l = Some (map g l).
+  Proof.
+    induction l as [|x l IH]; intros H; [reflexivity|]. cbn [mapM map].
+    rewrite H by (left; reflexivity). rewrite IH by (intros; apply H; right; auto). reflexivity.
+  Qed.
+
+  Definition px (points : list (F * F)) (i : nat) : F := fst (nth i points (0, 0)).
+  Definition py (points : list (F * F)) (i : nat) : F := snd (nth i points (0, 0)).
+  Definition others (n i : nat) : list nat := filter (fun j => negb (Nat.eqb j i)) (seq 0 n).
+
+  (* barycentric weights: w_i * prod_{j <> i} (x_i - x_j) = 1, for pairwise distinct abscissae;
+     a repeated abscissa panics (inverse of zero) *)
+  Theorem barycentric_weights_spec : forall (points : list (F * F)),
+    (forall i j, (i < length points)%nat -> (j < length points)%nat -> i <> j -> px points i <> px points j) ->
+    exists w, barycentric_weights points = Some w /\ length w = length points /\
+      forall i, (i < length points)%nat ->
+        nth i w 0 * fproduct (map (fun j => px points i - px points j) (others (length points) i)) = 1.
+  Proof.
+    intros points Hd. unfold barycentric_weights, batch_inverse_checked.
+    set (n := length points).
+    set (D := map (fun i => fproduct (map (fun j => nthF (map fst points) i - nthF (map fst points) j)
+                                          (filter (fun j => negb (Nat.eqb j i)) (seq 0 n)))) (seq 0 n)).
+    assert (Enth : forall i, nthF (map fst points) i = px points i).
+    { intros i. unfold nthF, px. change 0 with (fst (0, 0) : F) at 1. apply map_nth. }
+    assert (HD : forall i, (i < n)%nat ->
+               nth i D 0 = fproduct (map (fun j => px points i - px points j) (others n i))).
+    { intros i Hi. unfold D.
+      rewrite (nth_indep _ 0 (fproduct (map (fun j => nthF (map fst points) 0 - nthF (map fst points) j) (filter (fun j => negb (Nat.eqb j 0)) (seq 0 n)))))
+        by (rewrite map_length, seq_length; exact Hi).
+      rewrite (map_nth (fun i => fproduct (map (fun j => nthF (map fst points) i - nthF (map fst points) j) (filter (fun j => negb (Nat.eqb j i)) (seq 0 n)))) (seq 0 n) 0%nat i).
+      rewrite seq_nth by exact Hi. cbn [plus]. unfold others. f_equal. apply map_ext. intros j. rewrite !Enth. reflexivity. }
+    assert (Hnz : Forall (fun x => x <> 0) D).
+    { apply Forall_forall. intros y Hy. destruct (In_nth D y 0 Hy) as [i [Hi E]].
+      unfold D in Hi. rewrite map_length, seq_length in Hi. rewrite <- E, HD by exact Hi.
+      apply fproduct_nonzero. intros z Hz. apply in_map_iff in Hz. destruct Hz as [j [Ez Hj]]. subst z.
+      unfold others in Hj. apply filter_In in Hj. destruct Hj as [Hj1 Hj2]. apply in_seq in Hj1.
+      apply negb_true_iff, Nat.eqb_neq in Hj2.
+      intros Z. apply (Hd i j Hi ltac:(lia) ltac:(lia)). apply f_sub_eq_0. exact Z. }
+    assert (Hex : existsb is_zero_f D = false).
+    { apply not_true_is_false. intros E. apply existsb_exists in E. destruct E as [y [Hy Hz]].
+      rewrite Forall_forall in Hnz. apply (Hnz y Hy). apply f_eqb_spec. exact Hz. }
+    fold D. rewrite Hex.
+    destruct (batch_inverse_correct D Hnz) as [L G].
+    assert (LD : length D = n) by (unfold D; rewrite map_length, seq_length; reflexivity).
+    eexists. split; [reflexivity|]. split; [rewrite L; exact LD|].
+    intros i Hi. rewrite <- HD by exact Hi. apply G. rewrite LD. exact Hi.
+  Qed.
+
+  (* off the nodes, `interpolate` returns  sum_i w_i * y_i * prod_{j <> i} (x - x_j);
+     with the barycentric weights this is the value of the Lagrange interpolant
+     sum_i y_i * prod_{j <> i} (x - x_j) / (x_i - x_j) *)
+  Theorem interpolate_off_node_spec : forall (points : list (F * F)) (x : F) (w : list F),
+    (forall i, (i < length points)%nat -> px points i <> x) -> length w = length points ->
+    interpolate points x w =
+    Some (fsum_l (map (fun i => nth i w 0 * py points i *
+                               fproduct (map (fun j => x - px points j) (others (length points) i)))
+                      (seq 0 (length points)))).
+  Proof.
+    intros points x w Hoff Lw. unfold interpolate. set (n := length points) in *.
+    assert (Hfind : find (fun p : F * F => fst p =? x) points = None).
+    { apply find_none_intro. intros p Hp. destruct (In_nth points p (0, 0) Hp) as [i [Hi E]].
+      apply feqb_false. rewrite <- E. apply Hoff. exact Hi. }
+    rewrite Hfind.
+    rewrite (mapM_all_some _ (fun i => nth i w 0 * finv (x - px points i) * py points i)).
+    2:{ intros i Hi. apply in_seq in Hi.
+        rewrite (nth_error_nth' points (0, 0)) by lia. rewrite (nth_error_nth' w 0) by lia.
+        destruct (nth i points (0, 0)) as [xi yi] eqn:Ep.
+        assert (Exi : px points i = xi) by (unfold px; rewrite Ep; reflexivity).
+        assert (Eyi : py points i = yi) by (unfold py; rewrite Ep; reflexivity).
+        unfold inverse. assert (Hne : x - xi <> 0).
+        { intros Z. apply (Hoff i ltac:(lia)). rewrite Exi. symmetry. apply f_sub_eq_0. exact Z. }
+        replace (x - xi =? 0) with false by (symmetry; apply feqb_false; exact Hne).
+        cbn [bind]. rewrite Exi, Eyi. reflexivity. }
+    cbn [bind]. f_equal.
+    (* l_x as a product over the indices *)
+    assert (Elx : fproduct (map (fun p : F * F => x - fst p) points) = fproduct (map (fun j => x - px points j) (seq 0 n))).
+    { f_equal. apply (nth_ext _ _ 0 0); [rewrite !map_length, seq_length; reflexivity|].
+      rewrite map_length. intros i Hi.
+      rewrite (nth_indep _ 0 ((fun p : F * F => x - fst p) (0, 0))) by (rewrite map_length; exact Hi).
+      rewrite (map_nth (fun p : F * F => x - fst p) points (0, 0) i).
+      rewrite (nth_indep _ 0 ((fun j => x - px points j) 0%nat)) by (rewrite map_length, seq_length; exact Hi).
+      rewrite (map_nth (fun j => x - px points j) (seq 0 n) 0%nat i). rewrite seq_nth by exact Hi. reflexivity. }
+    rewrite Elx, fsum_l_scale. apply fsum_l_ext. intros i Hi. apply in_seq in Hi.
+    rewrite (fproduct_split (fun j => x - px points j) (seq 0 n) i (seq_NoDup n 0) ltac:(apply in_seq; lia)).
+    fold (others n i).
+    assert (Hne : x - px points i <> 0).
+    { intros Z. apply (Hoff i ltac:(lia)). symmetry. apply f_sub_eq_0. exact Z. }
+    field. exact Hne.
+  Qed.
+End Barycentric.
